@@ -263,5 +263,5 @@ func round(s *slip.Scope, f slip.Object, args slip.List, depth int) slip.Values 
 	case slip.Complex:
 		slip.TypePanic(s, depth, "number", tn, "real")
 	}
-	return slip.Values{q, r}
+	return slip.Values{canonicalNumber(q), canonicalNumber(r)}
 }
